@@ -8,7 +8,7 @@
    iter_index t it = number of items before position it (= distance from begin).
    All statements hold for every 1 <= maxCapacity <= 255, every capacityStep, blockCount, search strategy. *)
 From Coq Require Import ZArith List.
-From C02 Require Import BTreeModel BTreeParams BTreeBase SplitSeg IndexTable BTreeSearch BTreeIter BTreeAdd BTreeRemove BTreeCtx BTreeRemove2 BTreeTrack BTreeRemove3 BTreeRange BTreeTop BTreeHist BTreeRemoveTop BTreeRangeTop BTreeHist2 BTreeMerge BTreeFast BTreeFast2 BTreeInsRange BTreeHist3 NodeOps NodeScript.
+From C02 Require Import BTreeModel BTreeParams BTreeBase SplitSeg IndexTable BTreeSearch BTreeIter BTreeAdd BTreeRemove BTreeCtx BTreeRemove2 BTreeTrack BTreeRemove3 BTreeRange BTreeTop BTreeHist BTreeRemoveTop BTreeRangeTop BTreeHist2 BTreeMerge BTreeFast BTreeFast2 BTreeInsRange BTreeHist3 NodeOps NodeScript BTreeDecide BTreeSplitGen GenPrimsC02.
 From MomoCommon Require Import GenPrelude.
 Import ListNotations.
 Local Open Scope Z_scope.
@@ -428,78 +428,104 @@ Theorem C02_spec_insert_sorted :
 Proof. exact spec_insert_sorted. Qed.
 Print Assumptions C02_spec_insert_sorted.
 
-(* ===== growth round: the REAL node operations that write the count byte / the index table / (never) the memPoolIndex =====
-   Gen_NodeOpsI / Gen_NodeOpsC are the cxx2coq translations of Node::AcceptBackItem, Node::Remove, pvAcceptBackItem, pvRemove,
-   pvInitIndexes, GetCount, GetCapacity, IsLeaf for the indexed and the continuous instantiation (regenerated every run).  The item
-   and child-pointer moves inside them (std::copy, std::copy_backward, ShiftNothrow, the remover) are skipped calls; the hand model
-   (IndexTable.v) covers them and the node-level byte correspondence compares table, slots and children with the real Node. *)
+(* ===== growth rounds: the REAL node operations that write the count byte / the index table / the item array / the child array
+   / (never) the memPoolIndex.  Gen_NodeOpsI / Gen_NodeOpsC are the cxx2coq translations of Node::AcceptBackItem, Node::Remove,
+   pvAcceptBackItem, pvRemove, pvInitIndexes, GetCount, GetCapacity, IsLeaf for the indexed and the continuous instantiation
+   (regenerated every run) INCLUDING the std::copy / std::copy_backward range copies on the table and on the child array; for the
+   continuous layout ItemTraits::ShiftNothrow on the item array is an assumed primitive (C03 proves it).  Only the item creator /
+   remover functors are skipped.  shift_ins / shift_del / ch_ins / ch_del are closed formulas for the shifted arrays (NodeOps.v). *)
 
-(* AcceptBackItem: Stuck exactly when an assert fails; otherwise count+1 (no uint8 wrap) and, besides the skipped shift, exactly one
-   table entry is written: indexes[index] = the old indexes[count].  mMemPoolIndex is not an output: it cannot change. *)
-Theorem C02_node_accept_count_plus_one_and_asserts :
-  forall leafPools maxCap step mpi cnt t index ch,
-    (0 <= cnt)%Z -> (Gen_NodeOpsI.GetCapacity leafPools maxCap step mpi cnt t <= 255)%Z ->
-    Gen_NodeOpsI.AcceptBackItem leafPools maxCap step mpi cnt t index ch =
-      if andb (cnt <? Gen_NodeOpsI.GetCapacity leafPools maxCap step mpi cnt t)%Z (index <=? cnt)%Z
-      then Ok (tt, (cnt + 1)%Z, upd t index (t cnt)) else Stuck.
+Theorem C02_node_accept_stuck_iff_assert_fails :
+  forall leafPools maxCap step mpi cnt t ch index,
+    Gen_NodeOpsI.AcceptBackItem leafPools maxCap step mpi cnt t ch index = Stuck <->
+    ~ (cnt < Gen_NodeOpsI.GetCapacity leafPools maxCap step mpi cnt t ch /\ index <= cnt)%Z.
+Proof. exact acceptI_stuck. Qed.
+Print Assumptions C02_node_accept_stuck_iff_assert_fails.
+
+(* indexed AcceptBackItem as a whole: count+1 (no wrap), the WHOLE new table (entry index := old entry count, entries index..count-1
+   one place up, everything else unchanged) and the WHOLE new child array (children index+1..count one place up; a leaf has none) *)
+Theorem C02_node_accept_indexed_full_effect :
+  forall leafPools maxCap step mpi cnt t ch index,
+    (0 <= index <= cnt)%Z -> (cnt < Gen_NodeOpsI.GetCapacity leafPools maxCap step mpi cnt t ch)%Z ->
+    (Gen_NodeOpsI.GetCapacity leafPools maxCap step mpi cnt t ch <= 255)%Z ->
+    exists T C, Gen_NodeOpsI.AcceptBackItem leafPools maxCap step mpi cnt t ch index = Ok (tt, (cnt + 1)%Z, T, C) /\
+      (forall j, T j = shift_ins t index cnt j) /\
+      (forall j, C j = if Gen_NodeOpsI.IsLeaf leafPools mpi cnt t ch then ch j else ch_ins ch index cnt j).
 Proof. exact acceptI_spec. Qed.
-Print Assumptions C02_node_accept_count_plus_one_and_asserts.
+Print Assumptions C02_node_accept_indexed_full_effect.
 
-Theorem C02_node_remove_count_minus_one_and_asserts :
-  forall mpi cnt t index ch,
-    (0 <= index)%Z -> (cnt <= 255)%Z ->
-    Gen_NodeOpsI.Remove mpi cnt t index ch =
-      if (index <? cnt)%Z then Ok (tt, (cnt - 1)%Z, upd t (cnt - 1)%Z (t index)) else Stuck.
+Theorem C02_node_remove_stuck_iff_assert_fails :
+  forall leafPools mpi cnt t ch index,
+    Gen_NodeOpsI.Remove leafPools mpi cnt t ch index = Stuck <-> ~ (index < cnt)%Z.
+Proof. exact removeI_stuck. Qed.
+Print Assumptions C02_node_remove_stuck_iff_assert_fails.
+
+(* indexed Remove as a whole: count-1, table entries index+1..count-1 one place down and the freed slot number parked at count-1 *)
+Theorem C02_node_remove_indexed_full_effect :
+  forall leafPools mpi cnt t ch index,
+    (0 <= index < cnt)%Z -> (cnt <= 255)%Z ->
+    exists T C, Gen_NodeOpsI.Remove leafPools mpi cnt t ch index = Ok (tt, (cnt - 1)%Z, T, C) /\
+      (forall j, T j = shift_del t index cnt j) /\
+      (forall j, C j = if Gen_NodeOpsI.IsLeaf leafPools mpi cnt t ch then ch j else ch_del ch index cnt j).
 Proof. exact removeI_spec. Qed.
-Print Assumptions C02_node_remove_count_minus_one_and_asserts.
+Print Assumptions C02_node_remove_indexed_full_effect.
+
+(* continuous layout: the ITEM ARRAY undergoes exactly the permutation the indexed table undergoes (same shift_ins / shift_del) *)
+Theorem C02_node_accept_continuous_full_effect :
+  forall leafPools maxCap step mpi cnt ch items index,
+    (0 <= index <= cnt)%Z -> (cnt < Gen_NodeOpsI.GetCapacity leafPools maxCap step mpi cnt items ch)%Z ->
+    (Gen_NodeOpsI.GetCapacity leafPools maxCap step mpi cnt items ch <= 255)%Z ->
+    exists C I, Gen_NodeOpsC.AcceptBackItem leafPools maxCap step mpi cnt ch items index = Ok (tt, (cnt + 1)%Z, C, I) /\
+      (forall j, I j = shift_ins items index cnt j) /\
+      (forall j, C j = if Gen_NodeOpsI.IsLeaf leafPools mpi cnt items ch then ch j else ch_ins ch index cnt j).
+Proof. exact acceptC_spec. Qed.
+Print Assumptions C02_node_accept_continuous_full_effect.
+
+Theorem C02_node_remove_continuous_full_effect :
+  forall leafPools mpi cnt ch items index,
+    (0 <= index < cnt)%Z -> (cnt <= 255)%Z ->
+    exists C I, Gen_NodeOpsC.Remove leafPools mpi cnt ch items index = Ok (tt, (cnt - 1)%Z, C, I) /\
+      (forall j, I j = shift_del items index cnt j) /\
+      (forall j, C j = if Gen_NodeOpsI.IsLeaf leafPools mpi cnt items ch then ch j else ch_del ch index cnt j).
+Proof. exact removeC_spec. Qed.
+Print Assumptions C02_node_remove_continuous_full_effect.
+
+Theorem C02_node_layouts_same_asserts :
+  forall leafPools maxCap step mpi cnt t ch items index,
+    (Gen_NodeOpsC.AcceptBackItem leafPools maxCap step mpi cnt ch items index = Stuck <->
+     Gen_NodeOpsI.AcceptBackItem leafPools maxCap step mpi cnt t ch index = Stuck) /\
+    (Gen_NodeOpsC.Remove leafPools mpi cnt ch items index = Stuck <-> Gen_NodeOpsI.Remove leafPools mpi cnt t ch index = Stuck).
+Proof. exact same_code_stuck. Qed.
+Print Assumptions C02_node_layouts_same_asserts.
 
 (* FRAME: capacity and leaf flag are functions of mMemPoolIndex alone, which no node operation returns as written *)
 Theorem C02_node_ops_frame_capacity_and_leaf_flag :
-  forall leafPools maxCap step mpi cnt t cnt' t',
-    Gen_NodeOpsI.GetCapacity leafPools maxCap step mpi cnt t = Gen_NodeOpsI.GetCapacity leafPools maxCap step mpi cnt' t' /\
-    Gen_NodeOpsI.IsLeaf leafPools mpi cnt t = Gen_NodeOpsI.IsLeaf leafPools mpi cnt' t'.
+  forall leafPools maxCap step mpi cnt t ch cnt' t' ch',
+    Gen_NodeOpsI.GetCapacity leafPools maxCap step mpi cnt t ch = Gen_NodeOpsI.GetCapacity leafPools maxCap step mpi cnt' t' ch' /\
+    Gen_NodeOpsI.IsLeaf leafPools mpi cnt t ch = Gen_NodeOpsI.IsLeaf leafPools mpi cnt' t' ch'.
 Proof. exact capacity_frame. Qed.
 Print Assumptions C02_node_ops_frame_capacity_and_leaf_flag.
 
-(* same code: the continuous instantiation computes the same count and the same Stuck condition as the indexed one *)
-Theorem C02_node_layouts_same_code_accept :
-  forall leafPools maxCap step mpi cnt t index ch,
-    Gen_NodeOpsC.AcceptBackItem leafPools maxCap step mpi cnt index ch =
-    match Gen_NodeOpsI.AcceptBackItem leafPools maxCap step mpi cnt t index ch with
-    | Ok (_, c, _) => Ok (tt, c) | Stuck => Stuck | Fuel => Fuel | Exn => Exn end.
-Proof. exact same_code_accept. Qed.
-Print Assumptions C02_node_layouts_same_code_accept.
-
-Theorem C02_node_layouts_same_code_remove :
-  forall mpi cnt t index ch,
-    Gen_NodeOpsC.Remove mpi cnt index ch =
-    match Gen_NodeOpsI.Remove mpi cnt t index ch with
-    | Ok (_, c, _) => Ok (tt, c) | Stuck => Stuck | Fuel => Fuel | Exn => Exn end.
-Proof. exact same_code_remove. Qed.
-Print Assumptions C02_node_layouts_same_code_remove.
-
 (* the constructor's pvInitIndexes loop (real code) writes the identity on [0, maxCapacity) and nothing else *)
 Theorem C02_node_init_indexes_is_identity :
-  forall maxCap mpi cnt t, (0 <= maxCap <= 255)%Z ->
-    exists t', Gen_NodeOpsI.pvInitIndexes maxCap mpi cnt t = Ok (tt, t') /\
+  forall maxCap mpi cnt t ch, (0 <= maxCap <= 255)%Z ->
+    exists t', Gen_NodeOpsI.pvInitIndexes maxCap mpi cnt t ch = Ok (tt, t') /\
       (forall j, (0 <= j < maxCap)%Z -> t' j = j) /\ (forall j, ~ (0 <= j < maxCap)%Z -> t' j = t j).
 Proof. exact init_indexes_identity. Qed.
 Print Assumptions C02_node_init_indexes_is_identity.
 
-(* the table entry the real code writes is the one the hand model of the table has there *)
-Theorem C02_generated_accept_table_step_agrees_with_hand_table :
-  forall (n : inode) index, (index <= icount n)%nat -> (icount n < length (idx n))%nat ->
-    tbl (idx (accept_back n index)) (Z.of_nat index) =
-    Gen_NodeOpsI.pvAcceptBackItem 0 0 (tbl (idx n)) (Z.of_nat index) (Z.of_nat (icount n)) (Z.of_nat index).
-Proof. exact accept_written_slot_agrees. Qed.
-Print Assumptions C02_generated_accept_table_step_agrees_with_hand_table.
+(* the table the REAL code computes is the hand model's table, entry by entry: the IndexTable.v theorems below are about the real code *)
+Theorem C02_generated_accept_table_is_hand_table :
+  forall (n : inode) index j, (index <= icount n)%nat -> (icount n < length (idx n))%nat -> (j < length (idx n))%nat ->
+    tbl (idx (accept_back n index)) (Z.of_nat j) = shift_ins (tbl (idx n)) (Z.of_nat index) (Z.of_nat (icount n)) (Z.of_nat j).
+Proof. exact hand_accept_table_is_generated. Qed.
+Print Assumptions C02_generated_accept_table_is_hand_table.
 
-Theorem C02_generated_remove_table_step_agrees_with_hand_table :
-  forall (n : inode) index, (index < icount n)%nat -> (icount n <= length (idx n))%nat -> (icount n <= 255)%nat ->
-    tbl (idx (remove_idx n index)) (Z.of_nat (icount n) - 1)%Z =
-    Gen_NodeOpsI.pvRemove 0 0 (tbl (idx n)) (Z.of_nat index) (Z.of_nat (icount n)) (Z.of_nat (icount n) - 1)%Z.
-Proof. exact remove_written_slot_agrees. Qed.
-Print Assumptions C02_generated_remove_table_step_agrees_with_hand_table.
+Theorem C02_generated_remove_table_is_hand_table :
+  forall (n : inode) index j, (index < icount n)%nat -> (icount n <= length (idx n))%nat -> (j < length (idx n))%nat ->
+    tbl (idx (remove_idx n index)) (Z.of_nat j) = shift_del (tbl (idx n)) (Z.of_nat index) (Z.of_nat (icount n)) (Z.of_nat j).
+Proof. exact hand_remove_table_is_generated. Qed.
+Print Assumptions C02_generated_remove_table_is_hand_table.
 
 (* indexed Remove: the table stays a permutation, the logical sequence loses exactly item `index`, NO raw slot is touched *)
 Theorem C02_indexed_node_remove_is_remove_at :
@@ -526,13 +552,51 @@ Theorem C02_indexed_node_history_refines :
 Proof. exact node_history_refines. Qed.
 Print Assumptions C02_indexed_node_history_refines.
 
-(* the executable node model used in the byte correspondence keeps "generated count byte = hand-model count" *)
-Theorem C02_node_script_count_is_generated_count :
-  forall maxCap stepRaw cont s index x nc s',
-    (0 <= ns_cnt s)%Z -> (ns_capacity maxCap stepRaw s <= 255)%Z -> ns_cnt s = Z.of_nat (icount (ns_node s)) ->
-    ns_accept maxCap stepRaw cont s index x nc = Some s' -> ns_cnt s' = Z.of_nat (icount (ns_node s')).
-Proof. exact ns_accept_count. Qed.
-Print Assumptions C02_node_script_count_is_generated_count.
+(* ===== growth round 2: decision logic of pvRebalance and segment arithmetic of pvSplitNode, generated from TreeSet.h ===== *)
+
+(* the REAL decision prefix of bool pvRebalance(parentNode, index, savedNode) (index out of range / node2 is the saved node / the two
+   children and the separator do not fit into node1 -> false; otherwise the merge is executed and true returned) is the hand model's *)
+Theorem C02_rebalance_decision_is_generated :
+  forall parCount i cap1 c1 c2 (pn sv p1 p2 : Z),
+    (parCount <= 255)%nat -> (c1 <= 255)%nat -> (c2 <= 255)%nat ->
+    Gen_Rebalance.pvRebalance_decide (Z.of_nat parCount) (Z.of_nat cap1) pn (Z.of_nat i) sv p1 p2 (Z.of_nat c1) (Z.of_nat c2) =
+    merge_decide parCount i (Z.eqb p2 sv) cap1 c1 c2.
+Proof. exact rebalance_decision_refines. Qed.
+Print Assumptions C02_rebalance_decision_is_generated.
+
+Theorem C02_model_merges_exactly_when_decision_says :
+  forall r pp i sp par n1 n2 sep,
+    node_at pp r = Some par ->
+    nth_error (n_children par) (i - 1) = Some n1 -> nth_error (n_children par) i = Some n2 -> nth_error (n_items par) (i - 1) = Some sep ->
+    (exists res, try_merge r pp i sp = Some res) <->
+    merge_decide (n_count par) i (list_eqb (pp ++ [i]) sp) (n_cap n1) (n_count n1) (n_count n2) = true.
+Proof. exact try_merge_iff_decision. Qed.
+Print Assumptions C02_model_merges_exactly_when_decision_says.
+
+(* the REAL Relocator::pvSplitNode: its AddSegment calls (trace) are exactly the hand model's segments, for both branches *)
+Theorem C02_split_segments_are_generated :
+  forall node n1 n2 leaf (c s cnt : nat),
+    (s < cnt)%nat -> (c <= cnt)%nat -> (cnt <= 255)%nat ->
+    exists tr, Gen_Split.pvSplitNode no_segs node (Z.of_nat c) leaf (Z.of_nat cnt) (Z.of_nat s) n1 n2 = Ok (tt, tr) /\
+      segs_list tr = map (zseg node n1 n2) (hand_segs c s cnt).
+Proof. exact gen_split_trace. Qed.
+Print Assumptions C02_split_segments_are_generated.
+
+Theorem C02_split_stuck_when_split_index_out_of_range :
+  forall node n1 n2 leaf c s cnt tr0, (s >= cnt)%Z -> Gen_Split.pvSplitNode tr0 node c leaf cnt s n1 n2 = Stuck.
+Proof. exact gen_split_stuck. Qed.
+Print Assumptions C02_split_stuck_when_split_index_out_of_range.
+
+(* ... and the hand split (BTreeModel.split_parts, the one all insertion theorems are about) is the replay of those segments:
+   left node, right node, position of the new item, separator that moves up *)
+Theorem C02_hand_split_is_segment_replay :
+  forall (ks : list Z) cs sub cnt c s x,
+    let '((ks1, _), sep, (ks2, _)) := split_parts ks cs sub cnt c s x in
+    ks1 = assemble ks x (if (c <=? s)%nat then Some c else None) 1 (hand_segs c s cnt) /\
+    ks2 = assemble ks x (if (c <=? s)%nat then None else Some (c - s - 1)%nat) 2 (hand_segs c s cnt) /\
+    sep = nth s ks 0%Z.
+Proof. exact hand_split_is_segment_replay. Qed.
+Print Assumptions C02_hand_split_is_segment_replay.
 
 (* non-vacuity: a concrete reachable state (maxCapacity 2, ten insertions with duplicates) has height 2 *)
 Theorem C02_nonvacuous_example :
